@@ -80,16 +80,8 @@ string, `Match` returns exactly the registered patterns (refcount > 0) whose seg
 topic's segments under the rule (`*` one segment, trailing `>` one or more), each exactly once. -/
 theorem match_exact (t : Trie) (h : t.Reachable) (topic : String) :
     (t.matchTopic topic).Nodup ∧
-    ∀ p, p ∈ t.matchTopic topic ↔ (t.count p > 0 ∧ segMatches (splitTopic p) (splitTopic topic) = true) := by
-  refine ⟨nodup_matchLevel _ [] _ h.wf, fun p => ?_⟩
-  simp only [Trie.matchTopic, Trie.count, mem_matchLevel, refsAt_pos_iff]
-  constructor
-  · rintro ⟨q, n, hq, hr, hp, hm⟩
-    have hs : splitTopic p = q := by simpa [hp] using pat_of_nodeAt h.wf hq hr
-    exact ⟨⟨n, by rw [hs]; exact hq, hr⟩, by rw [hs]; exact hm⟩
-  · rintro ⟨⟨n, hq, hr⟩, hm⟩
-    have hs : splitTopic n.pat = splitTopic p := by simpa using pat_of_nodeAt h.wf hq hr
-    exact ⟨splitTopic p, n, hq, hr, splitTopic_injective hs, hm⟩
+    ∀ p, p ∈ t.matchTopic topic ↔ (t.count p > 0 ∧ segMatches (splitTopic p) (splitTopic topic) = true) :=
+  match_exact_aux t h topic
 
 example : (((Trie.empty.add "a/*").1.add "a/>").1.add "b").1.matchTopic "a/b" = ["a/>", "a/*"] := by decide
 example : segMatches ["a", ">"] ["a"] = false ∧ segMatches ["a", ">"] ["a", "b", "c"] = true := by decide
@@ -129,5 +121,95 @@ theorem trie_pruned (t : Trie) (h : t.Reachable) (hz : ∀ q : List String, refs
   omega
 
 example : ((Trie.empty.add "a/b/c").1.remove "a/b/c").1.root = [] := by decide
+
+/-! ## serving side: delivery -/
+
+/-- the full-strength statement of exact delivery for one publish frame handled in state `s` -/
+def C17_delivery_exact_full : Prop :=
+  ∀ (s : NodeSt), s.Agree → ∀ (peer ident space topic msgIdent : String) (relayed idLenOk big : Bool),
+    let o := (s.handlePublish peer ident space topic msgIdent relayed idLenOk big).2
+    -- at most one copy per stream
+    o.delivered.Nodup ∧
+    -- a stream gets the message iff the publisher conditions hold and one of ITS registered
+    -- patterns of that space matches the topic segment by segment
+    (∀ sid, sid ∈ o.delivered ↔
+      (s.publishAccepted peer ident space topic msgIdent relayed idLenOk big = true ∧
+        ∃ p, s.Reg sid space p ∧ segMatches (splitTopic p) (splitTopic topic) = true)) ∧
+    -- forwarded to the other responsible nodes exactly once, marked relayed, iff accepted and not
+    -- itself relayed: a relayed message is never forwarded again
+    o.forwards = (if s.publishAccepted peer ident space topic msgIdent relayed idLenOk big && !relayed
+                  then [true] else [])
+
+/-- **delivery_exact.** Holds in every state in which the three bookkeeping views agree
+(`NodeSt.Agree`, see `views_agree_*` below for which steps are proved to keep it). -/
+theorem delivery_exact : C17_delivery_exact_full := by
+  intro s h peer ident space topic msgIdent relayed idLenOk big
+  obtain ⟨hd, hf⟩ := handlePublish_obs s peer ident space topic msgIdent relayed idLenOk big
+  obtain ⟨hn, hm⟩ := fanout_spec s h space topic
+  refine ⟨?_, ?_, hf⟩
+  · simp only [hd]; split
+    · exact hn
+    · simp
+  · intro sid
+    simp only [hd]
+    split
+    · rename_i ha; simp [ha, hm sid]
+    · rename_i ha; simp [ha]
+
+/-- relayed input is fanned out but never forwarded -/
+theorem relayed_never_forwarded (s : NodeSt) (peer ident space topic msgIdent : String) (idLenOk big : Bool) :
+    (s.handlePublish peer ident space topic msgIdent true idLenOk big).2.forwards = [] := by
+  rw [(handlePublish_obs s peer ident space topic msgIdent true idLenOk big).2]; simp
+
+/-- publishing changes no interest bookkeeping -/
+theorem publish_keeps_views (s : NodeSt) (peer ident space topic msgIdent : String) (relayed idLenOk big : Bool) :
+    let s' := (s.handlePublish peer ident space topic msgIdent relayed idLenOk big).1
+    s'.remote = s.remote ∧ s'.streams = s.streams ∧ s'.pool = s.pool :=
+  handlePublish_state s peer ident space topic msgIdent relayed idLenOk big
+
+/-! ## client receive path -/
+
+/-- **client_filters.** A received publish runs handlers exactly when the acceptance condition holds
+(well-formed topic, claimed identity is a parsable key of a space member, owner-namespace rule for
+that identity, timestamp not stale, signature verifies under the claimed identity, id not among the
+recorded ones, payload readable), and then exactly the handlers subscribed under the locally
+matching patterns; otherwise none. Stated limits of the code, visible in the model:
+`stale .zero = false` (a zero timestamp is never stale) and the ring forgets an id after
+`dedupSize` newer ones. -/
+theorem client_filters (s : ClientSt) (space topic claimed : String) (sigOk : Bool) (ts : TsClass)
+    (id : Nat) (keyId : Bool) :
+    (s.receive space topic claimed sigOk ts id keyId).2 =
+      if s.accepts space topic claimed sigOk ts id keyId
+      then (s.seen id).1.handlersFor space (s.localMatch space topic) else [] :=
+  receive_snd s space topic claimed sigOk ts id keyId
+
+/-- forged (signature does not verify under the claimed identity), stale, or replayed (id recorded)
+frames never reach a handler -/
+theorem client_rejects (s : ClientSt) (space topic claimed : String) (sigOk : Bool) (ts : TsClass)
+    (id : Nat) (keyId : Bool) (h : sigOk = false ∨ ClientSt.stale ts = true ∨ id ∈ s.ring) :
+    (s.receive space topic claimed sigOk ts id keyId).2 = [] := by
+  rw [client_filters]
+  have : s.accepts space topic claimed sigOk ts id keyId = false := by
+    simp only [ClientSt.accepts]
+    rcases h with h | h | h
+    · simp [h]
+    · simp [h]
+    · simp [h]
+  simp [this]
+
+/-- **replay.** Once an id has been recorded (ring size ≥ 1) the same id reaches no handler,
+whatever else the frame says. -/
+theorem client_replay_refused (s : ClientSt) (hd : s.dedupSize ≥ 1) (id : Nat)
+    (space topic claimed : String) (sigOk : Bool) (ts : TsClass) (keyId : Bool) :
+    ((s.seen id).1.receive space topic claimed sigOk ts id keyId).2 = [] :=
+  client_rejects _ _ _ _ _ _ _ _ (Or.inr (Or.inr (mem_ring_seen s hd id)))
+
+example :
+    let s : ClientSt := { dedupSize := 4, cap := 3, self := "A0", members := [("s1", "A1")] }
+    let s := (s.subscribe 0 "s1" "chat/>").1
+    (s.receive "s1" "chat/x" "A1" true .fresh 7 false).2 = [0] ∧
+    (s.receive "s1" "chat/x" "A1" false .fresh 7 false).2 = [] ∧
+    (s.receive "s1" "chat/x" "A1" true .past 7 false).2 = [] ∧
+    (s.receive "s1" "chat/x" "A2" true .fresh 7 false).2 = [] := by decide
 
 end AnySync.PubSub
